@@ -588,6 +588,11 @@ func driver(args []string) int {
 		if st == "fails" || st == "fails-unmatched" || hits > 0 {
 			fmt.Printf("KNOWN-FINDING: property=%s %s %s (witness %s, %d generated cases matched)\n", o.prop, k.ID, k.What, orStr(st, "none"), hits)
 			known = append(known, k.ID)
+		} else if len(k.Witness) == 0 || string(k.Witness) == "null" {
+			// recorded without a witness in this check's input format (its reproducer
+			// lives under hunted/): listed on every run, it cannot be seen to go quiet here
+			fmt.Printf("KNOWN-FINDING: property=%s %s %s (no witness in this check; reproducer under hunted/)\n", o.prop, k.ID, k.What)
+			known = append(known, k.ID)
 		}
 	}
 
